@@ -261,6 +261,7 @@ static uint8_t *gs_place(gslot *g, size_t len, int place, unsigned align_off)
 #define GS_OK (-0x7fffffffffffffffL)
 static long gs_check(gslot *g, size_t w)
 {
+	if (!g->cur) return GS_OK;
 	uint8_t *a = g->cur - w < g->lo || (size_t) (g->cur - g->lo) < w ? g->lo : g->cur - w;
 	for (uint8_t *p = a; p < g->cur; p++) if (*p != v_canary(g, p)) return (long) (p - g->cur);
 	uint8_t *e = g->cur + g->curlen, *b = (size_t) (g->hi - e) < w ? g->hi : e + w;
